@@ -187,6 +187,10 @@ class FEM(om.ImplicitComponent):
         vec_size = self.options["vec_size"]
         ny = self.ny
 
+        # Reassemble so that k_data belongs to the current inputs; it may hold values from
+        # another evaluation point (e.g. the last finite-difference step of check_partials).
+        self.assemble_CSC_K(inputs)
+
         idx = np.tile(np.tile(np.arange(12), 12), ny - 1) + np.repeat(6 * np.arange(ny - 1), 144)
         J["disp_aug", "local_stiff_transformed"] = np.tile(x[idx], vec_size)
 
